@@ -140,6 +140,10 @@ func RunShards(spec ShardSpec, onLine func(shard int, line []byte)) error {
 		}
 		cmd := exec.Command(os.Args[0], "-test.run", "^"+spec.Test+"$", "-test.count", "1", "-test.timeout", "0")
 		cmd.Env = append(os.Environ(), fmt.Sprintf("%s=%d", shardEnv, i+1), "GOMAXPROCS=1")
+		if os.Getenv("GOGC") == "" {
+			// executions allocate a lot and keep nothing: collect less often
+			cmd.Env = append(cmd.Env, "GOGC=400")
+		}
 		cmd.Env = append(cmd.Env, spec.Env...)
 		var outBuf bytes.Buffer
 		cmd.Stdout = &outBuf
